@@ -45,6 +45,7 @@ fn main() -> Result<()> {
           protocol: args.iter().any(|a| a == "--protocol"),
           state_after_update: !args.iter().any(|a| a == "--no-state"),
           lookups: !args.iter().any(|a| a == "--no-lookups"),
+          digest_only: args.iter().any(|a| a == "--digest-only"),
           update_timeout: std::time::Duration::from_secs(
             arg_value(&args, "--update-timeout")
               .map(|s| s.parse().unwrap())
@@ -90,6 +91,42 @@ fn main() -> Result<()> {
             };
             let tag = arg_value(&args, "--tag").unwrap_or("s".into());
             r#gen::ledger(seed * 1000 + i, &format!("{tag}x{i}"), &cfg, &flags, &chain)
+          }
+          "reorg" | "proto" | "sched" | "crash" => {
+            let p = r#gen::ProtoCfg {
+              ci: arg_value(&args, "--ci").map(|s| s.parse().unwrap()).unwrap_or(5000),
+              si: arg_value(&args, "--si").map(|s| s.parse().unwrap()).unwrap_or(10),
+              ms: arg_value(&args, "--ms").map(|s| s.parse().unwrap()).unwrap_or(2),
+              flags: flags.iter().map(|s| s.to_string()).collect(),
+            };
+            let tag = arg_value(&args, "--tag").unwrap_or("r".into());
+            match family.as_str() {
+              "reorg" => {
+                let h: usize = arg_value(&args, "--h").map(|s| s.parse().unwrap()).unwrap_or(10);
+                let d: usize = arg_value(&args, "--d").map(|s| s.parse().unwrap()).unwrap_or(1);
+                let batch: usize = arg_value(&args, "--batch").map(|s| s.parse().unwrap()).unwrap_or(1);
+                r#gen::reorg_case(seed + i, &tag, &p, h, d, batch)
+              }
+              "crash" => {
+                let point = arg_value(&args, "--point").unwrap_or("post_commit_main".into());
+                let occ: u64 = arg_value(&args, "--occ").map(|s| s.parse().unwrap()).unwrap_or(1);
+                let pre: usize = arg_value(&args, "--pre").map(|s| s.parse().unwrap()).unwrap_or(3);
+                let more: usize = arg_value(&args, "--more").map(|s| s.parse().unwrap()).unwrap_or(5);
+                let fd: usize = arg_value(&args, "--fork-depth").map(|s| s.parse().unwrap()).unwrap_or(0);
+                r#gen::crash_case(seed + i, &tag, &p, &point, occ, pre, more, fd)
+              }
+              "proto" => {
+                let ops: usize = arg_value(&args, "--ops").map(|s| s.parse().unwrap()).unwrap_or(25);
+                let cps = arg_value(&args, "--crash-points").unwrap_or_default();
+                let cps: Vec<&str> = cps.split(',').filter(|s| !s.is_empty()).collect();
+                let forks = !args.iter().any(|a| a == "--no-forks");
+                r#gen::proto_random(seed * 1000 + i, &format!("{tag}x{i}"), &p, ops, &cps, forks)
+              }
+              _ => {
+                let sched: u64 = arg_value(&args, "--sched").map(|s| s.parse().unwrap()).unwrap_or(0);
+                r#gen::schedule_case(seed, &tag, &p, blocks, sched * 1000 + i, &flags.join("+"))
+              }
+            }
           }
           other => return Err(anyhow!("unknown family {other}")),
         };
